@@ -69,6 +69,7 @@ type runState struct {
 	allowInit *ssa.Function
 	sched
 	intrinsicState
+	concFails []string
 }
 
 func (i *interpreter) replaying() bool { return i.dptr < len(i.w.decisions) }
@@ -373,13 +374,31 @@ func (i *interpreter) newVar(name string, sort Sort) *Term {
 }
 
 func (i *interpreter) symInt(name string, k types.BasicKind) value {
+	if c := i.w.concrete; c != nil {
+		bits, _ := ParseBV(c.Model[i.freshName(name)])
+		return concreteInt(k, bits&mask(kindWidth(k)))
+	}
 	return symv{k, i.newVar(name, kindWidth(k))}
+}
+
+func (i *interpreter) symBool(name string) value {
+	if c := i.w.concrete; c != nil {
+		bits, _ := ParseBV(c.Model[i.freshName(name)])
+		return bits != 0
+	}
+	return symb{i.newVar(name, SBool)}
 }
 
 // assertHolds is the deciding query: path-condition ∧ ¬c.
 func (i *interpreter) assertHolds(id string, c *Term) {
 	w := i.w
 	w.noteAssert(i.harness, id)
+	if w.concrete != nil {
+		if c.IsFalse() {
+			i.concFails = append(i.concFails, id)
+		}
+		return
+	}
 	if c.IsTrue() {
 		w.noteDischarged(i.harness, id, true)
 		return
